@@ -2,6 +2,7 @@ package inl
 
 import (
 	"fmt"
+	"sort"
 	"go/ast"
 	"go/token"
 	"go/types"
@@ -51,6 +52,8 @@ type sroaCand struct {
 	lit    *ast.CompositeLit // may be nil (new(T), var v T)
 	prefix string
 	ok     bool
+	// `d := c`: the value starts as a copy of another candidate
+	copyFrom *types.Var
 }
 
 func (n *normCtx) sroa(fd *ast.FuncDecl) {
@@ -75,9 +78,38 @@ func (n *normCtx) sroa(fd *ast.FuncDecl) {
 		return named, st
 	}
 	cands := map[*types.Var]*sroaCand{}
+	// uses of a candidate other than field selections that are rewritten too:
+	// the source of a copy, the target of `c = T{k: v, ..}`
+	allowed := map[*ast.Ident]bool{}
+	whole := map[*ast.AssignStmt]*types.Var{}
 	ast.Inspect(fd.Body, func(x ast.Node) bool {
 		switch s := x.(type) {
 		case *ast.AssignStmt:
+			if s.Tok == token.ASSIGN && len(s.Lhs) == 1 && len(s.Rhs) == 1 {
+				id, ok := s.Lhs[0].(*ast.Ident)
+				lit, isLit := s.Rhs[0].(*ast.CompositeLit)
+				if ok && isLit {
+					v, _ := pk.TypesInfo.Uses[id].(*types.Var)
+					keyed := true
+					for _, e := range lit.Elts {
+						kv, isKV := e.(*ast.KeyValueExpr)
+						if !isKV {
+							keyed = false
+						} else if _, isId := kv.Key.(*ast.Ident); !isId {
+							keyed = false
+						}
+					}
+					if v != nil && keyed {
+						if _, isPtr := v.Type().(*types.Pointer); !isPtr && types.Identical(pk.TypesInfo.TypeOf(lit), v.Type()) {
+							if named, _ := newStruct(v.Type()); named != nil {
+								whole[s] = v
+								allowed[id] = true
+							}
+						}
+					}
+				}
+				return true
+			}
 			if s.Tok != token.DEFINE || len(s.Lhs) != 1 || len(s.Rhs) != 1 {
 				return true
 			}
@@ -99,6 +131,15 @@ func (n *normCtx) sroa(fd *ast.FuncDecl) {
 			}
 			c := &sroaCand{v: v, st: st, named: named, def: s, ok: true}
 			switch r := rhs.(type) {
+			case *ast.Ident:
+				// a copy of another local of the same new struct type
+				src, _ := pk.TypesInfo.Uses[r].(*types.Var)
+				_, isPtr := v.Type().(*types.Pointer)
+				if src == nil || isPtr || rhs != s.Rhs[0] || !types.Identical(src.Type(), v.Type()) {
+					return true
+				}
+				c.copyFrom = src
+				allowed[r] = true
 			case *ast.CompositeLit:
 				for _, e := range r.Elts {
 					kv, isKV := e.(*ast.KeyValueExpr)
@@ -164,7 +205,7 @@ func (n *normCtx) sroa(fd *ast.FuncDecl) {
 		}
 		v, _ := pk.TypesInfo.Uses[id].(*types.Var)
 		c := cands[v]
-		if c == nil {
+		if c == nil || allowed[id] {
 			return true
 		}
 		se := selX[id]
@@ -178,6 +219,22 @@ func (n *normCtx) sroa(fd *ast.FuncDecl) {
 		}
 		return true
 	})
+	// a copy stands and falls with its source, a whole assignment with its target
+	for changed := true; changed; {
+		changed = false
+		for _, c := range cands {
+			if c.copyFrom == nil {
+				continue
+			}
+			src := cands[c.copyFrom]
+			if c.ok && (src == nil || !src.ok) {
+				c.ok, changed = false, true
+			}
+			if !c.ok && src != nil && src.ok {
+				src.ok, changed = false, true
+			}
+		}
+	}
 	q := &qualifier{pk: pk, file: n.file}
 	typeExpr := func(t types.Type) ast.Expr {
 		e, ok := parseTypeExpr(types.TypeString(t, q.qual))
@@ -188,8 +245,39 @@ func (n *normCtx) sroa(fd *ast.FuncDecl) {
 	}
 	repl := map[ast.Stmt][]ast.Stmt{}
 	names := map[*types.Var]map[string]string{} // var -> field -> local name
+	var ordered []*sroaCand
 	for _, c := range cands {
+		if c.copyFrom == nil {
+			ordered = append(ordered, c)
+		}
+	}
+	for round := 0; round < 4; round++ {
+		for _, c := range cands {
+			if c.copyFrom == nil {
+				continue
+			}
+			have, srcIn := false, false
+			for _, o := range ordered {
+				have = have || o == c
+				srcIn = srcIn || o.v == c.copyFrom
+			}
+			if !have && srcIn {
+				ordered = append(ordered, c)
+			}
+		}
+	}
+	sort.SliceStable(ordered, func(i, j int) bool {
+		if (ordered[i].copyFrom == nil) != (ordered[j].copyFrom == nil) {
+			return ordered[i].copyFrom == nil
+		}
+		return ordered[i].def.Pos() < ordered[j].def.Pos()
+	})
+	for _, c := range ordered {
 		if !c.ok {
+			continue
+		}
+		if c.copyFrom != nil && names[c.copyFrom] == nil {
+			c.ok = false
 			continue
 		}
 		n.in.nfresh++
@@ -231,6 +319,9 @@ func (n *normCtx) sroa(fd *ast.FuncDecl) {
 			if init, has := inits[fname]; has {
 				spec.Values = []ast.Expr{init}
 			}
+			if c.copyFrom != nil {
+				spec.Values = []ast.Expr{&ast.Ident{NamePos: pos, Name: names[c.copyFrom][fname]}}
+			}
 			out = append(out, &ast.DeclStmt{Decl: &ast.GenDecl{TokPos: pos, Tok: token.VAR, Specs: []ast.Spec{spec}}})
 			out = append(out, &ast.AssignStmt{Lhs: []ast.Expr{&ast.Ident{NamePos: pos, Name: "_"}}, TokPos: pos, Tok: token.ASSIGN, Rhs: []ast.Expr{&ast.Ident{NamePos: pos, Name: local}}})
 		}
@@ -240,6 +331,49 @@ func (n *normCtx) sroa(fd *ast.FuncDecl) {
 		}
 		repl[c.def] = out
 		names[c.v] = fieldNames
+	}
+	for as, v := range whole {
+		fn := names[v]
+		c := cands[v]
+		if fn == nil || c == nil || !c.ok {
+			continue
+		}
+		lit := as.Rhs[0].(*ast.CompositeLit)
+		pos := as.Pos()
+		given := map[string]bool{}
+		var lhs, rhs []ast.Expr
+		for _, e := range lit.Elts {
+			kv := e.(*ast.KeyValueExpr)
+			name := kv.Key.(*ast.Ident).Name
+			given[name] = true
+			lhs = append(lhs, &ast.Ident{NamePos: pos, Name: fn[name]})
+			rhs = append(rhs, kv.Value)
+		}
+		bad := false
+		for i := 0; i < c.st.NumFields(); i++ {
+			f := c.st.Field(i)
+			if given[f.Name()] {
+				continue
+			}
+			te := typeExpr(f.Type())
+			if te == nil {
+				bad = true
+				break
+			}
+			lhs = append(lhs, &ast.Ident{NamePos: pos, Name: fn[f.Name()]})
+			switch f.Type().Underlying().(type) {
+			case *types.Pointer, *types.Interface, *types.Slice, *types.Map, *types.Chan, *types.Signature:
+				// (the tuple assignment converts nil to the field's type)
+				rhs = append(rhs, &ast.Ident{NamePos: pos, Name: "nil"})
+			default:
+				rhs = append(rhs, &ast.StarExpr{Star: pos, X: &ast.CallExpr{Fun: &ast.Ident{NamePos: pos, Name: "new"}, Lparen: pos, Args: []ast.Expr{te}, Rparen: pos}})
+			}
+		}
+		if bad || len(lhs) == 0 {
+			// (cannot happen for a candidate whose declaration could be written)
+			continue
+		}
+		repl[as] = []ast.Stmt{&ast.AssignStmt{Lhs: lhs, TokPos: pos, Tok: token.ASSIGN, Rhs: rhs}}
 	}
 	if len(repl) == 0 {
 		return
